@@ -217,7 +217,9 @@ def blockChunk (t : Tracker) (declared actual : Nat) : Tracker × Out :=
   if t.decoding.isSome then (t, .panic)            -- "already decoding, and got chunk at offset 0"
   else if declared ≠ actual then (t, .panic)       -- "streamed block hash does not match header"
   else if !t.listeners.isEmpty && t.ldec then (t, .panic)
-  else ({ t with decoding := some declared, ldec := !t.listeners.isEmpty }, .ok)
+  else ({ t with decoding := some declared, ldec := !t.listeners.isEmpty,
+                 -- `on_block_start` sets the monitors' `saw_block`
+                 listeners := t.listeners.map fun (k, l) => (k, { l with st := { l.st with sawBlock := true } }) }, .ok)
 
 /-- The observable part of the tracker the property speaks about: everything except the streaming
 scratch (`decoding`, `ldec`). -/
